@@ -32,6 +32,14 @@ import (
 // there, its "true" only withholds the re-arm (the epoch then stays the statement's literal one, "until an exchange
 // completes"). For the must-fire oracle (b) pion's "false" is used against pion only: it starts a new must-fire epoch
 // (its flag is clear, the next tracked change must produce an event). Rollback is not a reset.
+//
+// Configuration dimension (c04Setup, a second seeded stream per case): the Configuration A is constructed with
+// (AlwaysNegotiateDataChannels, BundlePolicy, RTCPMuxPolicy, ICECandidatePoolSize, SDPSemantics with fallback), the
+// same knob on the peer B, SetConfiguration calls inside the history (accepted ones, switching
+// AlwaysNegotiateDataChannels on after descriptions exist, and rejected ones), the role A takes in the FIRST exchange
+// (answerer-first histories: the current local description is then an answer that mirrors only what B offered), and
+// the fixed scripts re-run under such configurations. None of this enters an oracle: what needs negotiation is decided
+// from the descriptions and the calls made, never from the configuration.
 
 type c04Fire struct {
 	Op         int    `json:"op"`
@@ -95,6 +103,82 @@ type c04Hist struct {
 	script      []string                // non-nil: scripted history (fixed op list) instead of generated ops
 	forceKind   RTPCodecType            // != 0: scripted token fixes the kind of the next AddTrack / AddTransceiverFromKind
 	forceDir    RTPTransceiverDirection // != 0: scripted token fixes the direction of the next AddTransceiverFromKind
+
+	rc            *kit.Rand // configuration stream of the case (independent of r: the op stream keeps its draws)
+	setup         c04Setup
+	scripted      bool // fixed op list (original script or script re-run under a generated configuration)
+	setCfgOK      int  // accepted SetConfiguration calls
+	firstRoleSeen bool
+}
+
+// c04Setup is the configuration dimension of one history, a pure function of (VERIF_SEED, case index).
+type c04Setup struct {
+	CfgA          Configuration
+	LabelA        string
+	KnobB         bool // B always offers an application section
+	AnswererFirst bool // A's first exchange is one in which it answers
+	SetCfgRate    float64
+	Prompt        bool // promptly negotiated history: a pending change is usually followed by a full exchange at once
+	LateDC        bool // no data channel before the first completed exchange: the FIRST one is created on a negotiated connection
+	Script        []string // non-nil: this generated index re-runs a fixed script under CfgA (+ an inserted SetConfiguration)
+	ScriptNo      int
+}
+
+func c04CfgLabel(c Configuration) string {
+	var parts []string
+	if c.AlwaysNegotiateDataChannels {
+		parts = append(parts, "andc")
+	}
+	if c.BundlePolicy != BundlePolicyUnknown {
+		parts = append(parts, "bundle="+c.BundlePolicy.String())
+	}
+	if c.RTCPMuxPolicy != RTCPMuxPolicyUnknown {
+		parts = append(parts, "mux="+c.RTCPMuxPolicy.String())
+	}
+	if c.ICECandidatePoolSize != 0 {
+		parts = append(parts, fmt.Sprintf("pool=%d", c.ICECandidatePoolSize))
+	}
+	if c.SDPSemantics != SDPSemanticsUnifiedPlan {
+		parts = append(parts, "sem="+c.SDPSemantics.String())
+	}
+	if len(parts) == 0 {
+		return "default"
+	}
+
+	return strings.Join(parts, ",")
+}
+
+// c04GenSetup draws the configuration dimension of generated case i (original scripts, i < len(c04Scripts), keep the
+// default configuration and are not passed here).
+func c04GenSetup(rc *kit.Rand) c04Setup {
+	var su c04Setup
+	pKnob := 0.4
+	if rc.Chance(0.08) { // a fixed script under a generated configuration
+		su.ScriptNo = rc.Intn(len(c04Scripts))
+		su.Script = append([]string{}, c04Scripts[su.ScriptNo]...)
+		pKnob = 0.5
+	}
+	su.CfgA.AlwaysNegotiateDataChannels = rc.Chance(pKnob)
+	su.CfgA.BundlePolicy = kit.Pick(rc, []BundlePolicy{0, 0, 0, BundlePolicyBalanced, BundlePolicyMaxCompat, BundlePolicyMaxBundle})
+	su.CfgA.RTCPMuxPolicy = kit.Pick(rc, []RTCPMuxPolicy{0, 0, 0, RTCPMuxPolicyRequire, RTCPMuxPolicyNegotiate})
+	if rc.Chance(0.1) {
+		su.CfgA.ICECandidatePoolSize = 1
+	}
+	if rc.Chance(0.1) {
+		su.CfgA.SDPSemantics = SDPSemanticsUnifiedPlanWithFallback
+	}
+	su.LabelA = c04CfgLabel(su.CfgA)
+	su.KnobB = rc.Chance(0.15)
+	su.AnswererFirst = rc.Chance(0.35)
+	su.SetCfgRate = kit.Pick(rc, []float64{0, 0.05, 0.1, 0.2})
+	su.Prompt = rc.Chance(0.35)
+	su.LateDC = rc.Chance(0.35)
+	if su.Script != nil && rc.Bool() { // one SetConfiguration somewhere in the script, switching the knob on
+		at := rc.Intn(len(su.Script) + 1)
+		su.Script = append(su.Script[:at], append([]string{"setcfg+andc"}, su.Script[at:]...)...)
+	}
+
+	return su
 }
 
 // c04Quiesce drains the operations queue until no worker is alive, nothing is queued and the empty-chain flag is
@@ -405,7 +489,11 @@ func (h *c04Hist) indepNeeded() (needed bool, why string) {
 func (h *c04Hist) settle(name string, err error, completedBefore int) bool { //nolint:cyclop,gocognit
 	ok, stuck := c04Quiesce(h.a)
 	if !ok {
-		h.aborted = "watchdog:quiesce-after:" + strings.SplitN(name, "(", 2)[0]
+		if strings.HasPrefix(h.aborted, "exchange-error:") { // keep the error that stopped the exchange half-way
+			h.aborted += "+quiesce-watchdog"
+		} else {
+			h.aborted = "watchdog:quiesce-after:" + strings.SplitN(name, "(", 2)[0]
+		}
 
 		return false
 	}
@@ -478,6 +566,11 @@ func (h *c04Hist) settle(name string, err error, completedBefore int) bool { //n
 		h.resetAt = len(fires) - 1 // keep judging later pairs independently
 	}
 
+	// the two "is negotiation needed" answers at this quiescent point: the monitor's own W3C check and pion's (the
+	// latter is the function under suspicion; see below for what each may and may not decide)
+	indep, why := h.indepNeeded()
+	chk := h.a.checkNegotiationNeeded()
+
 	// (b) must fire: only when stable and quiescent
 	cur := c04CurrentLocal(h.a)
 	anyNeeded := false
@@ -492,13 +585,32 @@ func (h *c04Hist) settle(name string, err error, completedBefore int) bool { //n
 		keep = append(keep, c)
 		anyNeeded = true
 		neededKinds = append(neededKinds, c.Kind+"@"+c.MadeIn)
+	}
+	h.pending = keep
+	for _, c := range keep {
 		if state != SignalingStateStable {
-			continue
+			break
 		}
 		h.run.Count("mustfire_evaluations", 1)
 		if !c.Checked {
 			c.Checked = true
 			h.run.Seen("mustfire_change_kinds", c.Kind+"@"+c.MadeIn)
+			// in which situation the obligation is judged for the first time: is it the only un-negotiated change
+			// (then nothing else can make pion fire), and for data channels: A's knob and its current local description
+			if len(keep) == 1 {
+				h.run.Seen("mustfire_sole_pending_change", c.Kind)
+			}
+			if c.Kind == "CreateDataChannel" {
+				ctx := "andc=off"
+				if h.knobA() {
+					ctx = "andc=on"
+				}
+				ctx += ",current-local=none"
+				if d := h.a.CurrentLocalDescription(); d != nil {
+					ctx = strings.TrimSuffix(ctx, "none") + d.Type.String()
+				}
+				h.run.Seen("mustfire_datachannel_first_judged", fmt.Sprintf("%s,sole-pending-change=%v", ctx, len(keep) == 1))
+			}
 		}
 		if len(fires)-h.resetB > 0 {
 			c.Served = true
@@ -513,14 +625,23 @@ func (h *c04Hist) settle(name string, err error, completedBefore int) bool { //n
 			continue
 		}
 		{
+			// cause: either the event was never scheduled / the flag is stuck although pion's own check agrees that
+			// negotiation is needed (plain signature), or pion's check itself answers "not needed" where the independent
+			// W3C check sees the need — then the signature names the W3C clause pion's check got wrong.
+			sig := "not-fired-after:" + c.Kind + "@" + c.MadeIn
+			note := ""
+			if !chk && indep {
+				sig += ":pion-check-says-not-needed:" + why
+				note = fmt.Sprintf("; pion's checkNegotiationNeeded() answers false here while the independent W3C check answers "+
+					"needed (%s); A's configuration: %s", why, c04CfgLabel(h.a.GetConfiguration()))
+			}
 			h.ops = append(h.ops, rec)
-			h.violate("not-fired-after:"+c.Kind+"@"+c.MadeIn,
+			h.violate(sig,
 				fmt.Sprintf("%s made at op %d in state %s is not in the current local description, A is stable and quiescent, "+
-					"but OnNegotiationNeeded was not invoked since the last reset (%s)", c.Kind, c.Op, c.MadeIn, h.resetBWhy))
+					"but OnNegotiationNeeded was not invoked since the last reset (%s)%s", c.Kind, c.Op, c.MadeIn, h.resetBWhy, note))
 			h.ops = h.ops[:len(h.ops)-1]
 		}
 	}
-	h.pending = keep
 	rec.Needed = strings.Join(neededKinds, ",")
 
 	// reset by "negotiation is not needed", decided by the monitor's OWN W3C check (indepNeeded) — not by pion's
@@ -529,13 +650,11 @@ func (h *c04Hist) settle(name string, err error, completedBefore int) bool { //n
 	// second event of the same real epoch pass as a first one.
 	// (only at stable quiescent points: W3C 4.7.3.2.4 clears the flag only after the stable test of 4.7.3.2.3 — a
 	// transient "not needed" while an offer is pending re-arms nothing)
-	indep, why := h.indepNeeded()
 	rec.Indep = fmt.Sprint(indep)
 	if why != "" {
 		rec.Indep += ":" + why
 	}
 	// pion's own answer: counted cross-check only, never deciding
-	chk := h.a.checkNegotiationNeeded()
 	rec.Check = fmt.Sprint(chk)
 	if state == SignalingStateStable {
 		h.run.Count("crosscheck_evaluations", 1)
@@ -707,8 +826,83 @@ func (h *c04Hist) opCreateDC() (string, error) {
 	return name, nil
 }
 
+// knobA: AlwaysNegotiateDataChannels as A reports it (public getter; evidence labels and canOffer only).
+func (h *c04Hist) knobA() bool {
+	return h.a.GetConfiguration().AlwaysNegotiateDataChannels
+}
+
+// opSetConfiguration calls A.SetConfiguration with a configuration drawn from the configuration stream: the
+// AlwaysNegotiateDataChannels knob (forced on by the scripted token), BundlePolicy / RTCPMuxPolicy left out, repeated
+// as they are, or changed (the call is then rejected and must leave everything as it was), ICECandidatePoolSize.
+// SetConfiguration is not a change that needs negotiation: no obligation is noted, the oracles just keep judging.
+func (h *c04Hist) opSetConfiguration(forceKnob bool) (string, error) {
+	have := h.a.GetConfiguration()
+	var cfg Configuration
+	var label []string
+	if forceKnob || h.rc.Chance(0.6) {
+		cfg.AlwaysNegotiateDataChannels = true
+		label = append(label, "andc")
+	}
+	switch x := h.rc.Intn(20); {
+	case x < 5:
+		cfg.BundlePolicy = have.BundlePolicy
+		label = append(label, "bundle=same")
+	case x < 7:
+		cfg.BundlePolicy = kit.Pick(h.rc, []BundlePolicy{BundlePolicyBalanced, BundlePolicyMaxCompat, BundlePolicyMaxBundle})
+		if cfg.BundlePolicy == have.BundlePolicy {
+			label = append(label, "bundle=same")
+		} else {
+			label = append(label, "bundle=other")
+		}
+	}
+	switch x := h.rc.Intn(20); {
+	case x < 4:
+		cfg.RTCPMuxPolicy = have.RTCPMuxPolicy
+		label = append(label, "mux=same")
+	case x < 6:
+		cfg.RTCPMuxPolicy = kit.Pick(h.rc, []RTCPMuxPolicy{RTCPMuxPolicyRequire, RTCPMuxPolicyNegotiate})
+		if cfg.RTCPMuxPolicy == have.RTCPMuxPolicy {
+			label = append(label, "mux=same")
+		} else {
+			label = append(label, "mux=other")
+		}
+	}
+	if h.rc.Chance(0.15) {
+		cfg.ICECandidatePoolSize = 1
+		label = append(label, "pool=1")
+	}
+	name := "SetConfiguration(" + strings.Join(label, ",") + ")"
+	was := have.AlwaysNegotiateDataChannels
+	err := h.a.SetConfiguration(cfg)
+	if err == nil {
+		h.setCfgOK++
+		h.run.Count("setconfiguration_accepted", 1)
+		if !was && h.knobA() {
+			ldesc := "none"
+			if d := h.a.CurrentLocalDescription(); d != nil {
+				ldesc = d.Type.String()
+			}
+			h.run.Seen("andc_switched_on_by_setconfiguration_with_current_local", ldesc+"@"+h.phase)
+		}
+	} else {
+		h.run.Count("setconfiguration_rejected_not_judged", 1)
+		if h.phase != "closed" && h.knobA() != was {
+			h.run.Count("model_divergence_rejected_setconfiguration_changed_andc", 1)
+		}
+	}
+
+	return name, err
+}
+
+func (h *c04Hist) doSetConfiguration(forceKnob bool) bool {
+	n, e := h.opSetConfiguration(forceKnob)
+	h.run.Seen("ops", "SetConfiguration@"+h.phase)
+
+	return h.settle(n, e, -1)
+}
+
 func (h *c04Hist) canOffer() bool {
-	return len(h.a.GetTransceivers()) > 0 || h.dcCreated > 0 || h.renegotiate
+	return len(h.a.GetTransceivers()) > 0 || h.dcCreated > 0 || h.renegotiate || h.knobA()
 }
 
 func c04Gather(pc *PeerConnection) error {
@@ -750,8 +944,30 @@ func (h *c04Hist) completeOffer() (int, error) {
 	h.phase = "stable"
 	h.renegotiate = true
 	h.exchanges++
+	h.noteExchange("offerer")
 
 	return before, nil
+}
+
+// noteExchange records the role A took in a completed exchange and what its new current local description carries.
+func (h *c04Hist) noteExchange(role string) {
+	app := "without-application-section"
+	if cur := c04CurrentLocal(h.a); cur != nil {
+		for _, m := range cur.Media {
+			if m.Kind == "application" {
+				app = "with-application-section"
+			}
+		}
+	}
+	knob := "andc=off"
+	if h.knobA() {
+		knob = "andc=on"
+	}
+	if !h.firstRoleSeen {
+		h.firstRoleSeen = true
+		h.run.Seen("first_exchange_role", role)
+	}
+	h.run.Seen("exchange_result", role+","+knob+","+app)
 }
 
 func (h *c04Hist) bOffer() (SessionDescription, error) {
@@ -800,6 +1016,7 @@ func (h *c04Hist) completeAnswer(drainBetween bool) (int, error) {
 	h.phase = "stable"
 	h.renegotiate = true
 	h.exchanges++
+	h.noteExchange("answerer")
 	if err = c04Gather(h.a); err != nil {
 		return before, err
 	}
@@ -882,6 +1099,9 @@ func (h *c04Hist) doChange(which string) bool {
 			which = "addtr"
 		default:
 			which = "dc"
+			if h.setup.LateDC && !h.renegotiate && h.phase != "closed" {
+				which = "addtr"
+			}
 		}
 	}
 	var n string
@@ -1009,6 +1229,9 @@ func (h *c04Hist) doClose() bool {
 func (h *c04Hist) scriptStep(tok string) bool {
 	// "addtrack:audio", "addtr:video:recvonly": kind / direction fixed by the script
 	h.forceKind, h.forceDir = 0, 0
+	if tok == "setcfg" || tok == "setcfg+andc" {
+		return h.doSetConfiguration(tok == "setcfg+andc")
+	}
 	if parts := strings.Split(tok, ":"); len(parts) > 1 {
 		tok = parts[0]
 		h.forceKind = NewRTPCodecType(parts[1])
@@ -1051,15 +1274,32 @@ func (h *c04Hist) step() bool { //nolint:cyclop
 
 		return h.scriptStep(tok)
 	}
+	if h.setup.SetCfgRate > 0 && h.rc.Chance(h.setup.SetCfgRate) {
+		return h.doSetConfiguration(false)
+	}
+	if h.setup.Prompt && h.phase == "stable" && len(h.pending) > 0 && h.rc.Chance(0.7) {
+		// promptly negotiated histories: change, exchange, change, exchange ... — every later change is then judged
+		// as the ONLY un-negotiated one, with nothing else around that could make the event fire anyway
+		if (h.setup.AnswererFirst && !h.renegotiate) || h.rc.Bool() {
+			return h.doExchangeAnswerer()
+		}
+
+		return h.doExchangeOfferer()
+	}
+	if h.setup.LateDC && h.phase == "stable" && h.renegotiate && h.dcCreated == 0 && len(h.pending) == 0 && h.rc.Chance(0.5) {
+		// the first data channel of a connection that has negotiated without one, as the only un-negotiated change
+		return h.doChange("dc")
+	}
 	switch h.phase {
 	case "stable":
 		x := h.r.Intn(100)
+		answerFirst := h.setup.AnswererFirst && !h.renegotiate
 		switch {
 		case x < 50 || (x < 90 && !h.canOffer() && h.r.Bool()):
 			return h.doChange("")
-		case x < 62 && h.canOffer():
+		case x < 62 && h.canOffer() && !answerFirst:
 			return h.doExchangeOfferer()
-		case x < 74:
+		case x < 74 || (x < 85 && answerFirst):
 			return h.doExchangeAnswerer()
 		case x < 85 && h.canOffer(): // half exchange: stop in have-local-offer
 			return h.doHalfOffer()
@@ -1114,8 +1354,19 @@ var c04Scripts = [][]string{ //nolint:gochecknoglobals
 func c04RunHistory(run *kit.Run, i int) {
 	r := run.CaseRand(i)
 	h := &c04Hist{run: run, idx: i, r: r, phase: "stable", reported: map[string]bool{}, resetWhy: "start", resetBWhy: "start"}
-	h.a = rigMustPC(rigOpts{})
-	h.b = rigMustPC(rigOpts{})
+	h.rc = kit.NewRand(kit.Seed(), 0xC04C0F16<<20|uint64(i))
+	h.setup = c04Setup{LabelA: "default"}
+	if i >= len(c04Scripts) {
+		h.setup = c04GenSetup(h.rc)
+	}
+	h.a = rigMustPC(rigOpts{Cfg: h.setup.CfgA})
+	h.b = rigMustPC(rigOpts{Cfg: Configuration{AlwaysNegotiateDataChannels: h.setup.KnobB}})
+	for _, part := range strings.Split(h.setup.LabelA, ",") {
+		run.Seen("a_configuration_at_construction", part)
+	}
+	if h.setup.KnobB {
+		run.Count("histories_peer_always_offers_application_section", 1)
+	}
 	defer func() {
 		if h.closePhase.Load() == 0 {
 			h.closePhase.Store(1)
@@ -1143,7 +1394,13 @@ func c04RunHistory(run *kit.Run, i int) {
 	if i < len(c04Scripts) {
 		h.script = append([]string{}, c04Scripts[i]...)
 		n = len(h.script)
+		h.scripted = true
 		run.Count("scripted_histories", 1)
+	} else if h.setup.Script != nil {
+		h.script = h.setup.Script
+		n = len(h.script)
+		h.scripted = true
+		run.Count("scripted_histories_under_generated_configuration", 1)
 	}
 	closedOps := 0
 	for k := 0; k < n; k++ {
@@ -1187,6 +1444,15 @@ func c04RunHistory(run *kit.Run, i int) {
 
 	var sb strings.Builder
 	fmt.Fprintf(&sb, "b=%d ", bKind)
+	if i >= len(c04Scripts) {
+		fmt.Fprintf(&sb, "cfgA=%s bAndc=%v ", h.setup.LabelA, h.setup.KnobB)
+		if h.setup.Prompt && !h.scripted {
+			run.Count("promptly_negotiated_histories", 1)
+		}
+		if h.setup.LateDC && !h.scripted {
+			run.Count("histories_without_datachannel_before_first_exchange", 1)
+		}
+	}
 	for _, o := range h.ops {
 		sb.WriteString(o.Op)
 		if o.Err != "" {
@@ -1214,7 +1480,10 @@ func TestVerifC04(t *testing.T) {
 	run := kit.Start(t, "C04", "seeded sequential histories on one PeerConnection A (one goroutine, operations queue brought to quiescence "+
 		"after every call) over {AddTrack, RemoveTrack, AddTransceiverFromKind x3 directions, CreateDataChannel, full exchange as offerer / "+
 		"answerer against a real pion peer, half exchange stopping in have-local-offer / have-remote-offer with changes made there and then "+
-		"completion or rollback, Close/GracefulClose, calls after close}. Non-trivial = >= 1 handler invocation and >= 1 completed exchange; "+
+		"completion or rollback, Close/GracefulClose, calls after close} x configuration of A {AlwaysNegotiateDataChannels, BundlePolicy, "+
+		"RTCPMuxPolicy, ICECandidatePoolSize, SDPSemantics fallback; at construction and through accepted / rejected SetConfiguration calls inside the "+
+		"history} x peer that always offers an application section x role of A in the first exchange (answerer-first histories); fixed scripts "+
+		"also re-run under generated configurations. Non-trivial = >= 1 handler invocation and >= 1 completed exchange; "+
 		"distinct by the executed op list")
 	defer run.Finish()
 	run.Assume("reset = exchange completed, or the monitor's own W3C check-if-negotiation-is-needed (kit.ParseSDP view of the current local/remote " +
@@ -1223,6 +1492,6 @@ func TestVerifC04(t *testing.T) {
 		"its 'true' withholds the re-arm; for must-fire its 'false' only adds an obligation); rollback is not a reset")
 	run.Assume("the first negotiation as answerer cannot be drained in have-remote-offer (startTransports blocks the queue until the peer has the answer): " +
 		"SetRemote(offer)+CreateAnswer+SetLocal(answer) is one compound op there, half exchanges in have-remote-offer only when renegotiating")
-	n := kit.N(400, 8000)
+	n := kit.N(560, 8000)
 	run.Parallel(n+len(c04Scripts), 16, func(i int) { c04RunHistory(run, i) })
 }
